@@ -158,8 +158,13 @@ def oracle_positions(src, line):
             return "string payload mismatch %r" % text
         if kind == "Newline" and text != "\n":
             return "newline token text %r" % text
-        if kind == "Int" and (not text.isascii() or int(text) != int(vlib.unhex(pl).decode())):
-            return "int payload mismatch %r" % text
+        if kind == "Int":
+            try:
+                same = text.isascii() and int(text) == int(vlib.unhex(pl).decode())
+            except ValueError:      # the span does not even cover a numeral
+                same = False
+            if not same:
+                return "int payload mismatch %r" % text
         prev_end = b
     if src[prev_end:].strip(" \t\r") != "":
         return "non-whitespace %r after the last token" % src[prev_end:]
